@@ -29,6 +29,13 @@ def _cases(tier, rng):
         for inner in ([['to_list']], [['count', True]]):
             yield {'kind': 'mux', 'term': [['split', ['nan_if_mod', 3, 0], inner]], 'items': items, 'no_model': True}
             yield {'kind': 'mux', 'term': [['group_by', ['mod', 2], [['split', ['nan_if_mod', 3, 0], inner]]]], 'items': items, 'no_model': True}
+    # predicate values compared by identity (instances of a class without __eq__) and equal values of different types
+    # (1 == 1.0 == True): "differs by !=" — outside the model's value domain, judged by the oracle on the real code only
+    for pred in (['obj_of', 2], ['obj_of', 3], ['mixed_eq', 2], ['mixed_eq', 4]):
+        for items in ([0, 1, 2, 3, 4, 5, 6, 7], [1, 1, 2, 3, 3, 8, 9, 4], [5], [0, 1, 4, 5, 2, 3, 6, 7, 7, 6], list(range(12))):
+            for inner in ([['to_list']], [['count', True]]):
+                yield {'kind': 'mux', 'term': [['split', pred, inner]], 'items': items, 'no_model': True}
+                yield {'kind': 'mux', 'term': [['group_by', ['mod', 2], [['split', pred, inner]]]], 'items': items, 'no_model': True}
     n = {'quick': 1500, 'thorough': 10000, 'search': 600}[tier]
     for _ in range(n):
         p = rng.choice(PREDS)
